@@ -19,6 +19,11 @@ func vHavocScalars(n *vNode, name string, states []State) {
 	r.state = states[vChoose(name+".state", len(states))]
 	vTagInt(name+".state", int(r.state))
 	vAssume(vImplies(r.state == Leader, r.votedFor == r.id)) // N4
+	if r.state == Leader {
+		for _, f := range r.followers { // N7 while leading
+			vAssume(f.matchIndex <= n.log.LastIndex())
+		}
+	}
 	r.commitIndex = vNondetU64(name + ".commit")
 	vAssume(vAnd(r.commitIndex >= oldCommit, r.commitIndex <= n.log.LastIndex()))
 	n.st.term, n.st.vote = r.currentTerm, r.votedFor // N3
@@ -31,11 +36,13 @@ func vh_SRV() {
 	r := n.r
 	vSetContact(r, "c")
 	vAssume(vImplies(r.state == Leader, r.votedFor == "n1")) // N4
+	vAssume(n.log.LastTerm() <= r.currentTerm)               // N1
 	// replication state left over from an earlier leadership of this incarnation (any values)
 	for _, id := range ids[1:] {
 		if f, ok := r.followers[id]; ok {
 			f.matchIndex = vNondetU64("c.match." + id)
 			f.nextIndex = vNondetU64("c.next." + id)
+			vAssume(vImplies(r.state == Leader, f.matchIndex <= n.log.LastIndex())) // N7 while leading
 		}
 	}
 	// a partially received snapshot from an earlier leader (C11.reset: discarded when this node takes over)
@@ -105,6 +112,9 @@ func vh_SRV() {
 	}
 	vCover("sent")
 	post := vSnapshotNode(n)
+	if r.state != Shutdown {
+		vCheckInv(n, true, true)
+	}
 	vAssert(post.term >= mid.term, "C08.termMono")
 	vAssert(vAnd(post.durTerm == post.term, post.durVote == post.votedFor), "C02|C08.persisted(N3)")
 	vAssert(vImplies(vAnd(post.term == mid.term, mid.votedFor != ""), post.votedFor == mid.votedFor), "C02|C08.vote-stable(G2)")
